@@ -402,8 +402,9 @@ fn run(rep: &Report) {
     let sks = drive::test_keys();
     let pks = sks.iter().map(|k| k.public_key().to_bytes().to_vec()).collect();
     let w = World { sks, pks };
-    let thorough = rep.tier == mc::Tier::Thorough;
-    rep.set_rule("base cases: 8 AGG_SIG opcodes x 23 coin amounts (every minimal-encoding length class boundary) x message of 1 byte (quick; '' and 32 bytes on one amount) / {'', 1, 32, 1024 bytes} (thorough) with a second fixed AGG_SIG_UNSAFE pair; each signed by the harness over its own rule table and run through parse_spends (block and mempool visitor; no / cold / warm / foreign-warm BlsCache), run_block_generator2 and validate_clvm_and_signature; pairs reported by run_spendbundle and the text from make_aggsig_final_message compared with the rule table; then 17 single-point tamperings per base case, each expected to be rejected exactly when it changes the signed (key, message) multiset; AGG_SIG_UNSAFE suffix ban: 7 constants x 6 message shapes (also with DONT_VALIDATE_SIGNATURE); bundles without any AGG_SIG condition (1 and 2 spends) x {identity, generator, 2*generator, an unrelated real signature} on every path (only the identity signs the empty multiset); 3 pair lists containing the infinity key through BlsCache::aggregate_verify cold / warm / warm again against the cache-free verdict; thorough: all 64 ordered opcode pairs over two spends. distinct = distinct (case, tampering)");
+    // both tiers enumerate the same space (the full one takes a few seconds)
+    let thorough = true;
+    rep.set_rule("base cases: 8 AGG_SIG opcodes x 23 coin amounts (every minimal-encoding length class boundary) x messages of {0, 1, 32, 1024} bytes (both tiers enumerate the same space) with a second fixed AGG_SIG_UNSAFE pair; each signed by the harness over its own rule table and run through parse_spends (block and mempool visitor; no / cold / warm / foreign-warm BlsCache), run_block_generator2 and validate_clvm_and_signature; pairs reported by run_spendbundle and the text from make_aggsig_final_message compared with the rule table; then 17 single-point tamperings per base case, each expected to be rejected exactly when it changes the signed (key, message) multiset; AGG_SIG_UNSAFE suffix ban: 7 constants x 6 message shapes (also with DONT_VALIDATE_SIGNATURE); bundles without any AGG_SIG condition (1 and 2 spends) x {identity, generator, 2*generator, an unrelated real signature} on every path (only the identity signs the empty multiset); 3 pair lists containing the infinity key through BlsCache::aggregate_verify cold / warm / warm again against the cache-free verdict; all 64 ordered opcode pairs over two spends. distinct = distinct (case, tampering)");
     rep.assume("the harness signer is chia_bls::sign / aggregate with the harness's own secret keys (covered by C15/C16); forgeries that are not single-point edits are out of scope");
     // a cache warmed by an unrelated valid bundle
     let foreign = BlsCache::new(NonZeroUsize::new(1000).unwrap());
